@@ -31,7 +31,13 @@ def mega_cases(chk, slice_no):
     return abs_for_text(sch), table, cases
 
 
-def build_schema(sch, outdir):
+def build_schema(sch, outdir, units=False):
+    if units:
+        # units do not touch the wire format, but they travel through the reflection binary the run-time codec loads:
+        # give a few fields a unit, one of them outside ASCII (a degree sign, as in the project's own README)
+        sch = json.loads(json.dumps(sch))
+        for i, st in enumerate(sch["structs"][:6]):
+            st["fields"][0]["unit"] = ["\u00b0C", "m/s", "\u00b5V"][i % 3]
     fcp, text = pycodec.parse_schema(sch)
     st, exe = cppdriver.build(fcp, outdir)
     return st, exe, text
@@ -186,7 +192,7 @@ def run_codec_check(pid, tier, seed):
     for sl in slices:
         sch, table, cases = mega_cases(chk, sl)
         out = os.path.join(chk.workdir, "mega%d" % sl)
-        st, exe, text = build_schema(sch, out)
+        st, exe, text = build_schema(sch, out, units=(pid == "C13"))
         programs += 1
         chk.count(1)
         if st != "ok":
